@@ -67,6 +67,7 @@ type L2 struct {
 	receipt chan ncsclient.ReceiptPayload
 
 	clients map[int]*L2Client
+	obs     map[int]*obsHandler
 }
 
 func NewL2(cfg L2Config) *L2 {
@@ -83,7 +84,7 @@ func NewL2(cfg L2Config) *L2 {
 	if cfg.ReceiptCap == 0 {
 		cfg.ReceiptCap = 4
 	}
-	l := &L2{cfg: cfg, store: &models.SessionStore{DiscoveryService: discovery{}}, active: map[int]bool{}, clients: map[int]*L2Client{},
+	l := &L2{cfg: cfg, store: &models.SessionStore{DiscoveryService: discovery{}}, active: map[int]bool{}, clients: map[int]*L2Client{}, obs: map[int]*obsHandler{},
 		receipt: make(chan ncsclient.ReceiptPayload, cfg.ReceiptCap)}
 	l.w = &World{cfg: Config{Mods: cfg.Mods, Flags: cfg.Flags}, uuids: map[string]int{}, pings: map[uint32]int{}, grids: map[any]int{},
 		sessObjs: map[*models.Session]int{}, out: map[int][]M{}, conns: map[int]*Conn{}}
@@ -109,6 +110,9 @@ func NewL2(cfg L2Config) *L2 {
 			h := hw.HandlerWithLogs(rh, time.Hour)
 			h = hw.HandlerWithMetrics(h, "http://verif.local")
 			o := &obsHandler{Handler: h, id: id, l: l}
+			l.mu.Lock()
+			l.obs[id] = o
+			l.mu.Unlock()
 			defer h.Close()
 			l.event(id, "start", "", nil)
 			hw.Handle(ctx, conn, o)
